@@ -633,6 +633,11 @@ def fd_random_rule(rng):
             else:
                 lo = rng.randrange(65536)
                 hi = rng.randrange(lo, 65536)
+                c = rng.random()
+                if c < 0.15:
+                    hi = lo                       # a range of one port, written as a range
+                elif c < 0.25:
+                    lo, hi = rng.choice([(0, 65535), (0, 0), (65535, 65535), (0, 1), (65534, 65535)])
                 out.append({"lo": lo, "hi": hi, "single": False})
         return out
     return {"dir": rng.choice(["in", "out"]), "proto": rng.choice([-1, 6, 17, rng.randrange(256)]), "src": addr(), "sports": ports(),
@@ -732,7 +737,8 @@ REGISTRY["C16"] = check_c16
 
 def cfg_render(st, rng):
     """abstract document (field -> class) -> (yaml text, want record)"""
-    want = {"version": "", "addr": "", "nodeid": "", "rt": "", "maxrt": 0, "forwarder": "", "level": "", "ifaddrs": [], "iftypes": [], "dnns": [], "cidrs": []}
+    want = {"version": "", "addr": "", "nodeid": "", "rt": "", "maxrt": 0, "forwarder": "", "level": "", "ifaddrs": [], "iftypes": [], "dnns": [], "cidrs": [],
+            "extra": []}      # optional values, as strings: description, per interface name/ifname/mtu, per DNN natifname, logger enable/reportCaller
     y = []
 
     def scalar(key, cls, ok, bad, indent=""):
@@ -754,7 +760,9 @@ def cfg_render(st, rng):
     add(scalar("version", st["version"], "1.0.3", rng.choice(["1.0.0", "1.0.4", "2", "1.0.3 "])))
     if st["version"] == "ok":
         want["version"] = "1.0.3"
-    add("description: UPF configuration rendered by the verification harness")
+    desc = rng.choice(["UPF configuration rendered by the verification harness", "x", "upf-%d" % rng.randrange(10 ** 6)])
+    add("description: %s" % json.dumps(desc))
+    want["extra"].append("desc=" + desc)
     if st["pfcp"] == "ok":
         y.append("pfcp:")
         a = rng.choice(["127.0.0.8", "10.100.200.3", "localhost", "upf.free5gc.org"])
@@ -813,10 +821,18 @@ def cfg_render(st, rng):
             elif il == "noaddr":
                 ents = [{"type": "N3"}]
             for e in ents:
+                # optional members of an interface entry: must come through unchanged too
+                if rng.random() < 0.6:
+                    e["name"] = rng.choice(["upf.5gc.nctu.me", "n3-%d" % rng.randrange(100)])
+                if rng.random() < 0.6:
+                    e["ifname"] = rng.choice(["gtpif", "upfgtp%d" % rng.randrange(10)])
+                if rng.random() < 0.6:
+                    e["mtu"] = rng.choice([0, 1, 1400, 1500, 9000, 65535, 4294967295])
                 first = True
                 for k, v in e.items():
                     y.append("    %s %s: %s" % ("-" if first else " ", k, json.dumps(v)))
                     first = False
+                want["extra"].append("if=%s|%s|%d" % (e.get("name", ""), e.get("ifname", ""), e.get("mtu", 0)))
         want["ifaddrs"] = [e.get("addr", "") for e in ents]
         want["iftypes"] = [e.get("type", "") for e in ents]
     dl = st["dnn"]
@@ -840,20 +856,25 @@ def cfg_render(st, rng):
         elif dl == "nocidr":
             ents = [{"dnn": "internet"}]
         for e in ents:
+            if "natifname" not in e and rng.random() < 0.4:
+                e["natifname"] = rng.choice(["eth0", "ens%d" % rng.randrange(9)])
             first = True
             for k, v in e.items():
                 y.append("  %s %s: %s" % ("-" if first else " ", k, json.dumps(v)))
                 first = False
+            want["extra"].append("nat=" + e.get("natifname", ""))
     want["dnns"] = [e.get("dnn", "") for e in ents]
     want["cidrs"] = [e.get("cidr", "") for e in ents]
     if st["logger"] == "ok":
         y.append("logger:")
-        y.append("  enable: true")
+        en, rc_ = rng.choice([True, False]), rng.choice([True, False])
+        y.append("  enable: %s" % ("true" if en else "false"))
         lv = rng.choice(["trace", "debug", "info", "warn", "error", "fatal", "panic"])
         add(scalar("level", st["level"], lv, rng.choice(["verbose", "INFO", "warning", "off"]), "  "))
         if st["level"] == "ok":
             want["level"] = lv
-        y.append("  reportCaller: false")
+        y.append("  reportCaller: %s" % ("true" if rc_ else "false"))
+        want["extra"].append("log=%s|%s" % (en, rc_))
     return "\n".join(y) + "\n", want
 
 
@@ -1453,12 +1474,18 @@ def check_c19_full(pid, replay=None):
     n = report_violations(pid, viols, st["crashes"], "L2 family Perio")
     if st["crashes"] and not n:
         raise Infra("L2 executor died: %s" % st["crashes"][0]["tail"][-1500:])
+    # the flags the control plane derives from the Measurement Information the SMF set (MNOP -> packet counts), after Create
+    # and after Update URR: usage histories at the PFCP level (Mon!VFlagsOf)
+    binary = vlib.build_test_binary("internal/pfcp")
+    us = gen_l1.usage(vlib.seed(), 400 if thorough else 60)
+    v3, s3 = execute_and_judge(binary, us, kbase(pid), pid + "-mi")
+    n += report_violations(pid, v3, s3["crashes"], "L1 usage")
     p = os.path.join(vlib.VERIF, "evidence", pid + ".json")
     with open(p) as fh:
         ev = json.load(fh)
     ev["coverage"].update({"l2_states": mc["distinct"], "l2_transitions": mc["generated"], "l2_traces_validated_against_impl": st["traces"],
-                           "l2_events_executed_on_impl": st["events"],
-                           "l2_monitor": "MonL2!VKrep (C19 clause): cause of every kernel report vs. trigger of the forwarded usage report"})
+                           "l2_events_executed_on_impl": st["events"], "l1_usage_histories": len(us),
+                           "l2_monitor": "MonL2!VKrep (C19 clause): cause of every kernel report vs. trigger of the forwarded usage report; Mon!VFlagsOf: MNOP -> volume-measurement flags"})
     ev["coverage"]["traces_validated_against_impl"] = ev["coverage"].get("traces_validated_against_impl", 0) + st["traces"]
     ev["violations"] = ev.get("violations", 0) + n
     with open(p, "w") as fh:
@@ -1648,6 +1675,31 @@ def c07_jumbo(sid, rng):
     return {"id": sid, "events": E}
 
 
+def c07_responses(sid, rng):
+    """malformed RESPONSES that match a live transaction: the UPF has report requests outstanding (sequence numbers 0..5) and
+    the owning peer answers them with a response that lost its Cause IE, has a wrong IE length, is cut after the header, ...;
+    then the usual probes"""
+    dl = {"k": "dldr", "urr": 0, "trig": 0, "pdr": 1, "action": 12, "pkt": "45000001", "tok": 0,
+          "vals": {x: "" for x in ("tv", "uv", "dv", "tp", "up", "dp", "st", "et", "du")}}
+    E = [gen_l1.ev("init", maxrt=2),
+         gen_l1.ev("assoc", peer="p1", seq=1, node="n1"),
+         gen_l1.ev("assoc", peer="p3", seq=1, node="n3"),
+         gen_l1.ev("est", peer="p3", seq=2, node="n3", cp="555", ops=[gen_l1.op("create", "urr", 1, meth=2)]),
+         gen_l1.ev("est", peer="p1", seq=2, node="n1", cp="7", ops=[gen_l1.op("create", "far", 1)])]
+    for _ in range(6):
+        E.append(gen_l1.ev("report", sref=2, reports=[dict(dl)]))
+    muts = [{"op": "drop", "k": 0, "v": 0, "s": "0"}, {"op": "iel", "k": 0, "v": rng.choice([-1, 1, 255]), "s": "0"},
+            {"op": "trunc", "k": rng.choice([8, 12, 16, 17]), "v": 0, "s": "0"}, {"op": "iet", "k": 0, "v": rng.choice([0, 20, 0x7fff]), "s": "0"},
+            {"op": "ieb", "k": 0, "v": rng.randrange(256), "s": "0"}, {"op": "dup", "k": 0, "v": 0, "s": "0"}]
+    rng.shuffle(muts)
+    for q, m in enumerate(muts):
+        E.append(gen_l1.ev("mut", peer="p1", seq=q, mbase="rptrsp", seid=rng.choice(["7", "0", "1"]), mut=m))
+        E.append(gen_l1.ev("hb", peer="p3", seq=10 + q, tag="probe-hb"))
+    E.append(gen_l1.ev("mod", peer="p3", seq=30, sref=1, ops=[gen_l1.op("query", "urr", 1)], tag="probe-mod:n3"))
+    E.append(gen_l1.ev("hb", peer="q2", seq=31, tag="probe-hb"))
+    return {"id": sid, "events": E}
+
+
 def check_c07(pid, replay=None):
     import random
     t0 = time.time()
@@ -1680,6 +1732,7 @@ def check_c07(pid, replay=None):
     log("MC Lifecycle: %d states, %d edges; %d prefixes x %d mutated datagrams each, on the model data plane (L1) and on the gtp5g driver over the simulated kernel (L2)" % (
         mc["distinct"], mc["edges_printed"], len(scripts), nmut))
     jumbo = [c07_jumbo("jumbo-%d" % j, rng) for j in range(4 if thorough else 2)]
+    jumbo += [c07_responses("rsp-%d" % j, rng) for j in range(12 if thorough else 3)]
     v1, l1, t1 = run_alive(binary, scripts + jumbo, kbase(pid), "c07-l1", "TestVerifL1")
     half = scripts[: max(20, len(scripts) // 2)]
     v2, l2, t2 = run_alive(binary, half, kbase(pid), "c07-l2", "TestVerifL2")
